@@ -21,6 +21,8 @@ META = {
 }
 
 FINDINGS = {
+    "C17-destroy-locks-swamp-before-drain": "destroy takes s.mu.Lock() before WaitForActiveVigilsClosed(): a Save in flight holds its vigil and needs "
+                                            "s.mu.RLock() — the writer waits for the destroyer's lock, the destroyer for the writer's vigil (AB/BA deadlock)",
     "C17-lost-wakeup": "CeaseVigil decrements the vigil counter without holding the condition variable's mutex: a decrement+broadcast that "
                        "falls between a waiter's check and its cond.Wait is lost and WaitForActiveVigilsClosed (Destroy's drain) sleeps forever",
     "C17-destroy-holding-own-vigil": "an auto-destroy site calls Destroy() without giving the caller's own vigil back first: the drain waits "
@@ -69,7 +71,10 @@ def spec_violated(rep):
             return "after `%s` waiter %s is still asleep although the vigil counter is 0 and no CeaseVigil is in flight (%s)" % (op, w[1], line)
         if "unwoken" in line:
             return "`%s`: a broadcast with a zero/positive counter did not wake a sleeping waiter (%s)" % (op, line)
-        if line.startswith("closefail") and ("stuck" in line or "hangs" in line):
+        if line.startswith("destroysave") and ("stuck" in line or "mu=held" in line):
+            return ("Destroy() with a Save in flight never completes: the destroyer %s the swamp mutex when its drain begins, the writer it waits "
+                    "for needs that mutex (%s)" % ("holds" if "mu=held" in line else "blocks on", line))
+        if line.startswith("closefail") and ("stuck" in line or "hang" in line):
             return ("Close() returned but the close never completes: WaitForGracefulClose got no answer within its budget after the "
                     "chronicler's final Close() failed (%s)" % line)
         if line.startswith("rpcs") and "vigdead=hang" in line:
@@ -87,7 +92,7 @@ def run(ctx):
     K.lean_verdict(ctx)
     corrs = []
     if K.build_hx(ctx) and K.build_drv(ctx):
-        args = ["%s=%s" % (k, facts.get(k, "unknown")) for k in ("decrementUnderCondLock", "checkStrict", "closeCancels")]
+        args = ["%s=%s" % (k, facts.get(k, "unknown")) for k in ("decrementUnderCondLock", "checkStrict", "closeCancels", "drainBeforeSwampMu")]
         c = K.correspondence(ctx, "C17", args)
         corrs.append(("C17", args, c))
         # genuinely concurrent run of the real vigil; its hook log must be a trace of the model
